@@ -145,11 +145,15 @@ func (p *PackageProgress) stageStreamData() error {
 		}()
 		offset, dataLen := stream.GetDataOffsetAndLen()
 		pack.Offset = offset
+		if old, ok := pack.OffsetRecord[offset]; ok {
+			pack.CurrentSize -= uint32(old) // 同一个偏移重传的情况 不能重复统计已上传的大小
+		}
 		pack.OffsetRecord[offset] = dataLen
 		pack.OffsetDataRecord[offset] = p.historyData[headLen : headLen+bodyLen]
 		pack.CurrentSize += uint32(bodyLen)
 		if pack.CurrentSize == pack.FileSize {
 			pack.StreamHead = p.historyData[:headLen]
+			pack.StreamBody = nil // 重新合并 不保留上一次合并的内容
 			keys := make([]int, 0)
 			for key := range maps.Keys(pack.OffsetDataRecord) {
 				keys = append(keys, key)
